@@ -127,7 +127,7 @@ void prop_c20(hz::Ctx &ctx) {
   rc_rounds(ctx, "C20-cli", ctx.thorough() ? 600000 : 80000, 40, [&]() {
     CliCase c = *gen_case; std::string id = ser20(c); if (!ctx.begin(id, cmdline(c))) return;
     int groups = (c.modeflags.empty() ? 0 : 1) + (c.p || c.outkind ? 1 : 0) + (c.chunk || c.brk ? 1 : 0) + (c.r ? 1 : 0);
-    for (auto &l : c.lines) if (l.size() >= 100) { ctx.cls("line:100+chars"); break; } if (c.longname) ctx.cls("output:long-name");
+    for (auto &l : c.lines) if (l.size() >= 100) { ctx.cls("line:100+chars"); break; } if (c.longname) ctx.cls("output:long-name"); if ((c.outkind == 1 || c.outkind == 2) && ((hz::fnv(ser20(c)) >> 5) & 1)) ctx.cls("output:stale-file-in-place");
     for (auto &l : c.lines) if (l.empty() || l[0] == ';' || l.find(':') != std::string::npos || l.find_first_not_of(' ') == std::string::npos) { ctx.cls("program:has-non-code-lines"); break; }
     ctx.cls(c.from_stdin ? "source:stdin" : "source:file"); ctx.cls(std::string("program:") + (c.progkind == 0 ? "pool" : c.progkind == 1 ? "failing" : "executable")); if (c.p) ctx.cls("flag:-p"); if (c.r) ctx.cls("flag:-r"); if (c.chunk) ctx.cls("flag:-c"); if (c.brk) ctx.cls("flag:-b"); if (c.outkind == 1) ctx.cls("flag:-P"); if (c.outkind == 2) ctx.cls("flag:-o"); if (c.outkind == 3) ctx.cls("output:unwritable"); if (!c.modeflags.empty()) ctx.cls("flag:mode");
     if (groups >= 2 || c.progkind == 1) ctx.nontrivial(id);
